@@ -34,6 +34,8 @@ type rRound struct {
 	StopAt   int     `json:"stop_at,omitempty"`   // until-eof/until-err: index of the callback invocation that aborts
 	EEDHooks int     `json:"eed_hooks,omitempty"` // hooks registered before this round
 	EnvHooks int     `json:"env_hooks,omitempty"`
+	// Poll: the consumer starts the call with wait=false and retries (yielding) while nothing is ready.
+	Poll bool `json:"poll,omitempty"`
 	// ConcurrentHook registers one more EED hook from a second task while this round's response is delivered.
 	ConcurrentHook bool `json:"concurrent_hook,omitempty"`
 }
@@ -233,6 +235,7 @@ func genRounds(r *Rand, nRounds int, eedPct, envPct int, hooks bool) []rRound {
 		rd.Mode = Pick(r, []string{"manual", "until-true", "until-eof", "until-err", "until-err", "until-nil"})
 		_, cb := expectRound(items)
 		rd.StopAt = r.Intn(len(cb))
+		rd.Poll = rd.Mode != "manual" && r.Pct(25)
 		if hooks {
 			if ri == 0 {
 				rd.EEDHooks, rd.EnvHooks = r.Intn(3), r.Intn(3)
@@ -378,6 +381,14 @@ func runRounds(p *roundsPlan, schedSeed uint64, replay []simrt.Choice, lenient, 
 		for _, it := range p.Rounds[ri].Items {
 			body = append(body, it.bytes()...)
 		}
+		if p.Rounds[ri].Poll {
+			// polling consumers get the packets one simulated millisecond apart, so that a poll can find the
+			// first packages while the rest of the response is still in flight
+			for i, pk := range peer.Packetise(body, p.Rounds[ri].Cuts, peer.BufResponse, m.Channel, true) {
+				pr.Conn.DeliverAfter(time.Duration(i)*time.Millisecond, pk)
+			}
+			return
+		}
 		pr.SendResponse(m.Channel, body, p.Rounds[ri].Cuts)
 	}
 	s.Net.Setup = func(c *simrt.Conn) { c.ReadSizes = p.ReadSizes }
@@ -479,19 +490,21 @@ func runRounds(p *roundsPlan, schedSeed uint64, replay []simrt.Choice, lenient, 
 				}
 			case "until-err":
 				calls := 0
-				pkg, err := ch.NextPackageUntil(ctx, true, func(pkg tds.Package) (bool, error) {
-					see(pkg)
-					if calls == rd.StopAt {
+				pkg, err := pollUntil(rd.Poll, func(wait bool) (tds.Package, error) {
+					return ch.NextPackageUntil(ctx, wait, func(pkg tds.Package) (bool, error) {
+						see(pkg)
+						if calls == rd.StopAt {
+							calls++
+							return false, errCallback
+						}
 						calls++
-						return false, errCallback
-					}
-					calls++
-					return isFinal(pkg), nil
+						return isFinal(pkg), nil
+					})
 				})
 				ro.callErr = err
 				ro.callPkg = pkg != nil
 			case "until-nil":
-				_, err := ch.NextPackageUntil(ctx, true, nil)
+				_, err := pollUntil(rd.Poll, func(wait bool) (tds.Package, error) { return ch.NextPackageUntil(ctx, wait, nil) })
 				ro.callErr = err
 			}
 			ro.returned = true
@@ -501,6 +514,10 @@ func runRounds(p *roundsPlan, schedSeed uint64, replay []simrt.Choice, lenient, 
 			// let the reader finish whatever invisible packages trail the final DONE before looking at the
 			// connection state and before registering further hooks ("registered at that time" would be ambiguous)
 			simrt.Sleep(time.Millisecond)
+			if rd.Poll {
+				// the packets of this response were sent a millisecond apart: wait until the last one is in
+				simrt.Sleep(time.Duration(len(rd.Cuts)+2) * time.Millisecond)
+			}
 			ro.sizeAfter = conn.PacketSize()
 			simrt.Record("round-end", "", "", int64(ri))
 			cancel()
@@ -522,6 +539,23 @@ func runRounds(p *roundsPlan, schedSeed uint64, replay []simrt.Choice, lenient, 
 		}
 	})
 	return obs, out
+}
+
+// pollUntil runs call(true), or - polling consumers - call(false) again and again (yielding in between) while it
+// reports that no package is ready yet.
+func pollUntil(poll bool, call func(wait bool) (tds.Package, error)) (tds.Package, error) {
+	if !poll {
+		return call(true)
+	}
+	for n := 0; ; n++ {
+		pkg, err := call(false)
+		if err != nil && errors.Is(err, tds.ErrNoPackageReady) && n < 2000 {
+			// wait in simulated time (a busy poll would starve the reader under a priority schedule)
+			simrt.Sleep(300 * time.Microsecond)
+			continue
+		}
+		return pkg, err
+	}
 }
 
 // roundsCommon turns scheduler-level outcomes into verdict entries shared by C03 and C11.
